@@ -504,6 +504,9 @@ theorem resolve_step {inp : Input} {f : Nat} (ihF : PFrag inp f) (ihW : PWalk in
               split
               · split
                 · exact ⟨hrd.tick 22, he, by intro _ h; cases h⟩
+                split
+                · exact ⟨(hrd.unvisit _ _ none (by intro _ h; cases h)).tick 23, by intro x hx; simpa using he x hx,
+                    by intro _ h; cases h⟩
                 have hv : ValOK inp (logRead al u { st with inprog := r.text :: st.inprog }).log
                     ((some u, st.log.length + 1), file.elemAs kind) := ⟨Loaded.here hu, KidsIn.elem kind hfile⟩
                 exact walk_mark_unvisit ihW ⟨cx.doc, some u⟩ (home, id) copy r.text kind
